@@ -105,9 +105,8 @@ def is_a_correct_uri(target_uri, prefix_namespace_dict):
 
 
 def there_is_arroba_after_last_quotes(target_str):
-    if target_str.rfind(STARTING_CHAR_FOR_SHAPE_NAME) > target_str.rfind('"'):
-        return True
-    return False
+    last_quotes = target_str.rfind('"')
+    return target_str[last_quotes + 1:last_quotes + 2] == "@"
 
 
 def parse_literal(an_elem, base_namespace=None):
